@@ -8,7 +8,13 @@ import glob, json, os, re, shutil, subprocess, sys
 sys.path.insert(0, os.path.dirname(os.path.dirname(os.path.abspath(__file__))))
 from concurrent.futures import ThreadPoolExecutor
 from rkstatic.selftest import run_one
-rnd, prefix, offset = sys.argv[1], sys.argv[2], int(sys.argv[3])
+rnd, prefix = sys.argv[1], sys.argv[2]
+offset = None if sys.argv[3] == 'auto' else int(sys.argv[3])     # auto: continue after the highest id stored for the property
+def offset_of(p):
+    if offset is not None:
+        return offset
+    ks = [int(d.rsplit('-', 1)[1]) for d in glob.glob('/verif/seeded/%s-*' % p) if d.rsplit('-', 1)[1].isdigit()]
+    return max(ks) if ks else 0
 props = sys.argv[4:]
 ST = '/tmp/stage'
 os.makedirs(ST, exist_ok=True)
@@ -20,11 +26,11 @@ for d in sorted(glob.glob('/tmp/%s-C*-out' % prefix)):
     for k in (1, 2, 3, 4):
         src = '%s/%s-%d' % (d, p, k)
         if os.path.isfile(src + '/patch.diff'):
-            dst = '%s/%s-%d' % (ST, p, k + offset)
+            dst = '%s/%s-%d' % (ST, p, k + offset_of(p))
             if os.path.exists(dst):
                 shutil.rmtree(dst)
             shutil.copytree(src, dst, ignore=shutil.ignore_patterns('_build*', 'build*', '*.o', '*.so', 'demo', 'demo_*'))
-            items.append((p, '%s-%d' % (p, k + offset)))
+            items.append((p, '%s-%d' % (p, k + offset_of(p))))
 
 def guess_modes(d):
     txt = ''
